@@ -81,6 +81,9 @@ func (b *ReaderX) ReadN(n int) ([]byte, error) {
 
 // ZReadN read n length buffer - no copy
 func (b *ReaderX) ZReadN(n int) ([]byte, error) {
+	if n == 0 {
+		return []byte{}, nil
+	}
 	return b.ReadN(n)
 }
 
